@@ -29,15 +29,19 @@ TECHNIQUE = (
     "once and carry the reset out 2..450 ms later (timer on the virtual clock), staying in their session and answering every request "
     "(TesterPresent, session changes) until then, optionally silent for a boot time afterwards; replies of these ECUs arrive with a "
     "latency of 0.5..40 ms so that virtual time passes while the scanner talks; the moment the reset is carried out is an entry of "
-    "the ECU-side log"
+    "the ECU-side log; (4) ECUs with an S3 server timer on the virtual clock (0.3..5 s without any request -> back to the default "
+    "session, every request restarts the timer, the expiry is an entry of the ECU-side log), scanned with --sleep 0..3 s shorter and "
+    "longer than S3, with the cyclic tester present of the real run() on (interval below S3) or switched off (--no-tester-present, or "
+    "main() alone), reply latency 0..40 ms"
 )
 LEVEL_TEXT = (
     "Exploration: seeded random session graphs (3..14 session ids out of 1..0x7F plus planted chains of length depth+2, cycles, "
     "unreachable components, sessions behind non-default sessions, transitions refused with another NRC), ISO-conformant (every "
     "session returns to the default session) and non-conformant, x depth 1..5 x skip lists in range grammar x thorough x reset x "
     "with-hooks (default ECU class, or the harness OEM class with hook-armed transitions) x answered/unanswered resets x resets carried "
-    "out immediately / 2..450 ms after the positive response (with and without boot silence, reply latency 0.5..40 ms) x direct "
-    "main()/full run().  Held = on every generated scan the result equals the reference reachability set, every "
+    "out immediately / 2..450 ms after the positive response (with and without boot silence, reply latency 0.5..40 ms) x ECUs "
+    "without / with an idle (S3) session timeout of 0.3..5 s x --sleep 0..3 s (shorter and longer than S3) x cyclic tester present "
+    "on (interval < S3) / off x direct main()/full run().  Held = on every generated scan the result equals the reference reachability set, every "
     "reported stack is a real path, no skipped session was requested and the scan ended within its request budget.  DB-backed "
     "histories: one scan, or a scan followed by a second scan of the same target into the same database with a smaller depth, a skip "
     "list cutting stored paths, a changed graph or thorough flipped; the second scan is judged by ITS depth / skip list / graph, its "
@@ -51,7 +55,8 @@ LEVEL_NOTE = (
 )
 RULE = (
     "cases = (graph edges, refused transitions, hook-armed transitions, depth, skip list, thorough, reset level, ECU offers reset, "
-    "unanswered-reset rule and max_retries, delayed-reset rule (delay, reply latency, boot silence), with_hooks, sleep, run mode, DB-backed or not; each scan of a two-scan history is one case); "
+    "unanswered-reset rule and max_retries, delayed-reset rule (delay, reply latency, boot silence), S3 rule (S3 time, tester present on/off "
+    "and interval, reply latency), with_hooks, sleep, run mode, DB-backed or not; each scan of a two-scan history is one case); "
     "graphs are seeded random digraphs with planted features; non-trivial = some session lies at distance >= 2 from the default "
     "session or a planted feature (cycle off the default session, over-long chain, unreachable component, skip that cuts a path, "
     "refused transition) is present; distinct = distinct case tuples; distinct_traces = distinct ECU-side request/reply logs"
@@ -74,6 +79,15 @@ ASSUMPTIONS = [
     "answers every request.  The expected result of the scan is the same as with immediate resets.  Generated delays stay below 0.45 s, "
     "i.e. below the 0.5 s wait_for_ecu() documents between its pings after a reset, and delay + boot silence stay below 1.3 s, well "
     "inside the request timeout (2 s) the scan waits for the ECU; slower ECUs are outside what --reset can be expected to handle",
+    "an ECU may fall back to the default session when it has not received any request for S3 seconds (server session timer, here on the "
+    "virtual clock; every request, also a TesterPresent, restarts it).  The expected result of the scan is the same as without the timer "
+    "whenever the tester keeps the session alive the way its options say: (a) cyclic tester present on with an interval below S3 "
+    "(generated: interval + 3 reply latencies < S3): for every --sleep; (b) tester present off: for every --sleep as well, because --sleep "
+    "is documented as a pause 'after changing to DefaultSession', i.e. at a moment where a fallback changes nothing, and everything else a "
+    "scan does in a non-default session is one request after the other (generated reply latencies stay below S3/6).  Not generated, because "
+    "the fallback would be the user's own doing: a tester present interval of S3 or more, reply latencies in the order of S3.  A pause longer "
+    "than S3 between the last change into a non-default session and the probe, without tester present, is more than any tester can bridge; "
+    "the oracle never asks for it - it only relies on the documented placement of the pause (before the non-default part of the stack is entered)",
     "sessions.py documents that a session whose change was refused with an NRC other than 0x12/0x7E and that was never entered is logged as "
     "'identified but could not be activated' AND stored in session_transition with the stack it was refused from (the table has no column "
     "telling such rows from reachable ones); the oracle accepts exactly those rows/list entries, derived from the ECU-side log, and nothing "
@@ -89,6 +103,8 @@ GUARD_NRCS = [0x22, 0x33, 0x31, 0x24]
 # documents as the distance between its pings after a reset (an ECU that takes longer is outside what --reset promises)
 DELAYED_RESET_MAX = 0.45
 MAX_REQ = {"quick": 20_000, "thorough": 60_000}
+# idle (S3) session timeouts of the generated ECUs: classes of values, shorter and longer than the --sleep values in use (1..3 s)
+S3_CLASSES = ((0.3, 0.95), (1.2, 2.8), (5.0, 5.0))
 
 
 def shards(tier: str, seed: int) -> list[dict[str, Any]]:
@@ -123,7 +139,16 @@ def required_reach(tier: str) -> dict[str, int]:
          "#reset.delayed.latency/": 3, "reset.delayed.ecu-stayed-in-non-default-session-until-reset": 15,
          "reset.delayed.non-default-stack-re-entered-after-reset": 10,
          "reset.delayed.non-default-stack-re-entered-after-reset-out-of-non-default-session": 10,
-         "reset.delayed.scans-with-boot-silence": 5, "reset.delayed.ping-unanswered-while-booting": 3}
+         "reset.delayed.scans-with-boot-silence": 5, "reset.delayed.ping-unanswered-while-booting": 3,
+         # ECUs with an idle (S3) session timeout x --sleep x cyclic tester present on / off
+         "s3.scans": 30, "s3.tester-present-off.scans": 15, "s3.tester-present-on.scans": 8, "s3.outcome.exact": 20,
+         "s3.sleep-longer-than-s3": 12, "s3.sleep-shorter-than-s3": 5, "s3.no-sleep": 3, "#s3.time/": 3,
+         "s3.tester-present-off.idle-beyond-s3-in-default-session": 10,
+         "s3.tester-present-off.non-default-stack-re-entered-after-pause-beyond-s3": 8,
+         "s3.tester-present-off.session-default-does-not-offer-entered-after-pause-beyond-s3": 5,
+         "s3.tester-present-off.pause-beyond-s3.thorough": 2, "s3.tester-present-off.pause-beyond-s3.with-reset": 2,
+         "s3.tester-present-on.ping-received-during-pause": 6, "s3.tester-present-on.pause-longer-than-s3-bridged": 4,
+         "s3.tester-present-on.ping-received-in-non-default-session": 2}
     return r
 
 
@@ -320,12 +345,15 @@ def gen_case(rng: Any, tier: str) -> dict[str, Any]:
                                 "seed": rng.randrange(1 << 30)}
         case["max_retries"] = rng.choice([0, 0, 1, 3])
     case["delayed_reset"] = gen_delayed_reset(case)
+    case["s3"] = gen_s3(case)
     # keep the run affordable: a thorough scan searches every walk, a reset costs ~depth+3 requests per probe
     adj = real_adj(case)
     cap = MAX_REQ[tier]
     while True:
         stacks = count_stacks(adj, set(skip), case["depth"], 10_000) if case["thorough"] else min(len(edges), 1 + len(level_reach(adj, set(skip), case["depth"] - 1) if case["depth"] > 1 else {}))
         per_probe = (case["depth"] + 4 + (case["max_retries"] + 1 if case["silent_reset"] else 0)) if case["reset"] else 1.3
+        if case["s3"] and case["s3"]["tp"] and case["reset"]:
+            per_probe += case["sleep"] / case["s3"]["tp_interval"]  # tester present requests during the pause of every recovery
         if stacks * 127 * per_probe <= cap:
             break
         if case["thorough"] and case["depth"] > 2 and rng.random() < 0.7:
@@ -357,6 +385,30 @@ def gen_delayed_reset(case: dict[str, Any]) -> dict[str, Any] | None:
     latency = r.choice([0.0005, 0.002, 0.01, 0.04])
     boot = round(r.uniform(0.05, 0.8), 3) if r.random() < 0.35 else 0.0
     return {"delay": delay, "latency": latency, "boot": boot}
+
+
+def gen_s3(case: dict[str, Any]) -> dict[str, Any] | None:
+    """An ECU with an idle session timeout: S3 seconds without any request and it is back in the default session (server side S3
+    timer, virtual clock).  Together with it the tester options that decide who keeps a session alive: --sleep (0..3 s, shorter and
+    longer than S3), cyclic tester present on (only the real run() starts it; interval below S3) or off.  Replies take `latency`
+    seconds (far below S3).  Sets case["sleep"] and, with tester present on, case["full"].
+    Drawn from a generator of its own seeded by the case (the main stream, hence every other generated case, is unchanged)."""
+    import random
+
+    if case["silent_reset"] or case.get("delayed_reset"):
+        return None
+    r = random.Random("s3" + repr((sorted(case["edges"].items()), case["depth"], case["skip"], case["thorough"], case["reset"])))
+    if r.random() >= 0.3:
+        return None
+    lo, hi = r.choice([S3_CLASSES[0], S3_CLASSES[0], S3_CLASSES[0], S3_CLASSES[1], S3_CLASSES[1], S3_CLASSES[2]])
+    s3 = round(r.uniform(lo, hi), 2)
+    tp = r.random() < 0.35
+    latency = r.choice([0.0, 0.0, 0.002, 0.01, 0.04])  # at most S3/6
+    interval = 0.5 if s3 >= 0.8 and r.random() < 0.5 else max(0.1, round(s3 * 0.4, 2))  # interval + 3 latencies < S3
+    case["sleep"] = r.choice([0, 1, 1, 2, 2, 3])
+    if tp:
+        case["full"] = True
+    return {"s3": s3, "tp": tp, "tp_interval": interval, "latency": latency}
 
 
 # ---- one scan ------------------------------------------------------------------------------------------------------
@@ -403,7 +455,11 @@ async def scan(case: dict[str, Any], budget: int, db: Any = None) -> dict[str, A
 
     srv = model(case)
     dr = case.get("delayed_reset")
-    tr = latency_transport_class()(srv, budget=budget, latency=dr["latency"]) if dr else em.InProcessTransport(srv, budget=budget)
+    s3 = case.get("s3")
+    if s3:
+        tr = s3_transport_class()(srv, budget=budget, latency=s3["latency"])  # the expiry of the S3 timer becomes an entry of the ECU-side log
+    else:
+        tr = latency_transport_class()(srv, budget=budget, latency=dr["latency"]) if dr else em.InProcessTransport(srv, budget=budget)
     if dr:
         srv.log_sink = tr.log  # the moment a delayed reset is carried out becomes an entry of the ECU-side log
     cap = em.fresh_capture()
@@ -412,11 +468,14 @@ async def scan(case: dict[str, Any], budget: int, db: Any = None) -> dict[str, A
                             "max_retries": case["max_retries"]}
     if db is not None:
         opts.update({"db": db, "timeout": DB_TIMEOUT})
+    if s3:  # (the cyclic tester present is started by setup(), i.e. only by the full run())
+        opts.update({"tester_present": bool(s3["tp"]), "tester_present_interval": float(s3["tp_interval"])})
     sc = em.make_scanner(SessionsScanner, **opts)
     # ECUs with hook-armed transitions are scanned through the harness OEM class (its set_session_pre() arms the transition)
     out = await em.run_scanner(sc, tr, case["full"], db=db is not None, ecu_cls=em.hook_ecu_class() if case["hooked"] else None)
     out.update({"result": list(sc.result), "log": tr.log, "records": list(cap.results), "problems": list(cap.problems),
-                "skip_cfg": list(sc.config.skip), "reconnects": tr.reconnects, "silent_resets": srv.n_silent_resets})
+                "skip_cfg": list(sc.config.skip), "reconnects": tr.reconnects, "silent_resets": srv.n_silent_resets,
+                "s3_fallbacks": getattr(srv, "n_s3_fallbacks", 0)})
     return out
 
 
@@ -425,16 +484,21 @@ def model(case: dict[str, Any], fresh: bool = False) -> Any:
     from vf import ecu_models as em
 
     dr = None if fresh else case.get("delayed_reset")
-    srv = (delayed_reset_ecu_class() if dr else em.GraphECU)(
+    s3 = None if fresh else case.get("s3")
+    srv = (s3_ecu_class() if s3 else delayed_reset_ecu_class() if dr else em.GraphECU)(
         {int(k): v for k, v in case["edges"].items()}, {(a, b): c for a, b, c in case["guarded"]},
         with_reset=case["ecu_reset"], silent_reset=None if fresh else case["silent_reset"], hooked=case["hooked"])
     if dr:
         srv.reset_delay, srv.boot_time = float(dr["delay"]), float(dr.get("boot", 0.0))
+    if s3:
+        srv.s3 = float(s3["s3"])
     return srv
 
 
 _delayed_cls: Any = None
 _latency_cls: Any = None
+_s3_cls: Any = None
+_s3_transport_cls: Any = None
 
 
 def delayed_reset_ecu_class() -> Any:
@@ -503,6 +567,53 @@ def latency_transport_class() -> Any:
     return _latency_cls
 
 
+def s3_ecu_class() -> Any:
+    """GraphECU with a server side session timer: when a request arrives more than `s3` seconds (event loop time, i.e. virtual
+    time) after the previous one, the timer had expired in between: a non-default session was left for the default session
+    (power-on state).  Every request restarts the timer.  The expiry is logged as (session before, b"", None, session after),
+    also when the ECU was idle in the default session (where it changes nothing)."""
+    global _s3_cls
+    if _s3_cls is None:
+        import asyncio
+
+        from vf import ecu_models as em
+
+        class S3ECU(em.GraphECU):  # type: ignore[misc,name-defined]
+            s3 = 5.0
+            last_rx: float | None = None
+            n_s3_fallbacks = 0
+            n_s3_idle_default = 0
+
+            def s3_tick(self, log: list[Any]) -> None:
+                now = asyncio.get_running_loop().time()
+                if self.last_rx is not None and now - self.last_rx > self.s3:
+                    before = self.state.session
+                    if before != 1:
+                        self.state.reset()
+                        self.armed = None
+                        self.n_s3_fallbacks += 1
+                    else:
+                        self.n_s3_idle_default += 1
+                    log.append((before, b"", None, self.state.session))
+                self.last_rx = now
+
+        _s3_cls = S3ECU
+    return _s3_cls
+
+
+def s3_transport_class() -> Any:
+    """LatencyTransport that lets the ECU look at its S3 timer before it takes the request"""
+    global _s3_transport_cls
+    if _s3_transport_cls is None:
+        class S3Transport(latency_transport_class(), scheme="inprocess"):  # type: ignore[misc,call-arg]
+            async def write(self, data: bytes, timeout: float | None = None, tags: list[str] | None = None) -> int:
+                self.server.s3_tick(self.log)
+                return int(await super().write(data, timeout, tags))
+
+        _s3_transport_cls = S3Transport
+    return _s3_transport_cls
+
+
 async def replay_path(case: dict[str, Any], path: list[int]) -> tuple[bool, int]:
     """send the session changes to a fresh model; (every change answered positively, final ECU session).  With hooks in use a
     change answered conditionsNotCorrect is repeated after the arming request of the OEM hook (what --with-hooks stands for)."""
@@ -523,8 +634,8 @@ async def replay_path(case: dict[str, Any], path: list[int]) -> tuple[bool, int]
 
 
 CASE_KEYS = ("edges", "guarded", "depth", "skip", "skip_expr", "thorough", "reset", "ecu_reset", "with_hooks", "sleep", "full",
-             "hooked", "silent_reset", "max_retries", "delayed_reset")
-CASE_DEFAULTS: dict[str, Any] = {"hooked": [], "silent_reset": None, "max_retries": 3, "delayed_reset": None}  # witnesses written before these existed
+             "hooked", "silent_reset", "max_retries", "delayed_reset", "s3")
+CASE_DEFAULTS: dict[str, Any] = {"hooked": [], "silent_reset": None, "max_retries": 3, "delayed_reset": None, "s3": None}  # witnesses written before these existed
 
 
 def walk_ok(adj: dict[int, set[int]], path: list[Any]) -> bool:
@@ -569,6 +680,9 @@ def prepare(ctx: Any, case: dict[str, Any], db: bool = False) -> dict[str, Any]:
     delayed = case.get("delayed_reset") if eff_reset and not silent else None
     # per probe: reset (+ its unanswered repetitions, each with a tester present of the background worker), ping, the stack, the probe
     per_probe = depth + 8 + (2 * (case["max_retries"] + 1) + 2 if silent else 0) + (4 if delayed else 0)
+    s3 = case.get("s3")
+    if s3 and s3["tp"]:  # tester present requests of the background worker during the pause of a stack recovery (and while replies travel)
+        per_probe += int(case["sleep"] / s3["tp_interval"]) + 3
     budget = int(stacks * 127 * per_probe * (2 if case["with_hooks"] else 1) * 2 + 2000)
 
     feat_far = any(d >= 2 for d in unbounded.values())
@@ -581,7 +695,8 @@ def prepare(ctx: Any, case: dict[str, Any], db: bool = False) -> dict[str, Any]:
     ident = (sorted(case["edges"].items()), case["guarded"], depth, case["skip"], case["thorough"], case["reset"], case["ecu_reset"],
              case["with_hooks"], case["sleep"], case["full"], case["hooked"],
              sorted(silent.items()) if silent else None, case["max_retries"] if silent else None) \
-        + ((("delayed-reset",) + tuple(sorted(delayed.items())),) if delayed else ()) + (("db",) if db else ())
+        + ((("delayed-reset",) + tuple(sorted(delayed.items())),) if delayed else ()) + (("db",) if db else ()) \
+        + ((("s3",) + tuple(sorted(s3.items())),) if s3 else ())
     ctx.case(ident, nontrivial=nontrivial)
     ctx.reach("graph.conformant" if conformant else "graph.nonconformant")
     for flag, name in ((case["thorough"], "opt.thorough"), (case["reset"], "opt.reset"), (case["full"], "opt.full-run"),
@@ -604,11 +719,16 @@ def prepare(ctx: Any, case: dict[str, Any], db: bool = False) -> dict[str, Any]:
         ctx.reach(f"reset.delayed.latency/{delayed['latency'] * 1000:g}ms")
         if delayed.get("boot"):
             ctx.reach("reset.delayed.scans-with-boot-silence")
+    if s3:
+        ctx.reach("s3.scans")
+        ctx.reach("s3.tester-present-on.scans" if s3["tp"] else "s3.tester-present-off.scans")
+        ctx.reach("s3.time/" + next(f"{lo:g}..{hi:g}s" for lo, hi in S3_CLASSES if s3["s3"] <= hi))
+        ctx.reach("s3.no-sleep" if not case["sleep"] else "s3.sleep-longer-than-s3" if case["sleep"] > s3["s3"] else "s3.sleep-shorter-than-s3")
 
     w: dict[str, Any] = {k: case[k] for k in CASE_KEYS}
     w["expected"] = sorted(want)
     return {"depth": depth, "skip": skip, "adj": adj, "want": want, "unbounded": unbounded, "all_sessions": all_sessions,
-            "eff_reset": eff_reset, "silent": silent, "delayed": delayed, "stuck": stuck, "conformant": conformant, "abort_allowed": abort_allowed, "budget": budget,
+            "eff_reset": eff_reset, "silent": silent, "delayed": delayed, "s3": s3, "stuck": stuck, "conformant": conformant, "abort_allowed": abort_allowed, "budget": budget,
             "feat_cycle": feat_cycle, "feat_long": feat_long, "feat_unreach": feat_unreach,
             "mode": "thorough" if case["thorough"] else "default", "w": w}
 
@@ -707,6 +827,71 @@ def reach_delayed_resets(ctx: Any, log: list[Any]) -> None:
         ctx.reach(name)
 
 
+def reach_s3(ctx: Any, case: dict[str, Any], o: dict[str, Any], log: list[Any]) -> None:
+    """ECU-side evidence for the S3 situations (no verdicts here).  Tester present off: the ECU was idle for longer than S3 in the
+    default session (the pause of --sleep), after that a stack with a non-default part was entered and a probe was made from
+    there - the one placement of the pause an ECU with a session timeout tolerates.  Tester present on: requests of the cyclic
+    worker arrived during the pause / while the ECU was in a non-default session."""
+    s3 = o["s3"]
+    adj = o["adj"]
+    seen: set[str] = set()
+    dsc = lambda e: len(e[1]) == 2 and e[1][0] == 0x10  # noqa: E731
+    if not s3["tp"]:
+        for i, e in enumerate(log):
+            if e[1] != b"" or e[0] != 1:
+                continue
+            seen.add("s3.tester-present-off.idle-beyond-s3-in-default-session")
+            # what followed: the rest of the stack (positively answered changes into non-default sessions), then probes from there
+            cur = 1
+            j = i + 1
+            while j < len(log) and not (dsc(log[j]) and (log[j][2] is None or log[j][2][0] != 0x50 or log[j][3] == 1)) and log[j][1] != b"" \
+                    and not (len(log[j][1]) >= 2 and log[j][1][0] == 0x11):
+                if dsc(log[j]):
+                    cur = log[j][3]
+                j += 1
+            # a change to a session other than 1 requested next can only be a probe made from the re-entered stack (after a
+            # successful probe made from the stack [1] the scanner would recover its stack, i.e. request '10 01')
+            if cur == 1 or j >= len(log) or not dsc(log[j]) or (log[j][1][1] & 0x7F) == 1:
+                continue
+            seen.add("s3.tester-present-off.non-default-stack-re-entered-after-pause-beyond-s3")
+            if case["thorough"]:
+                seen.add("s3.tester-present-off.pause-beyond-s3.thorough")
+            if o["eff_reset"]:
+                seen.add("s3.tester-present-off.pause-beyond-s3.with-reset")
+            # the probes made from there, up to the next recovery: one of them entered a session the default session does not offer
+            for e2 in log[j:]:
+                if e2[1] == b"" or not (dsc(e2) or e2[1][:1] == b"\x2e"):
+                    break
+                if dsc(e2) and e2[0] != cur:
+                    break
+                if dsc(e2) and e2[2] is not None and e2[2][0] == 0x50:
+                    if (e2[1][1] & 0x7F) not in adj.get(1, ()):
+                        seen.add("s3.tester-present-off.session-default-does-not-offer-entered-after-pause-beyond-s3")
+                    break
+    else:
+        t_default: int | None = None  # index of the last positively answered '10 01'
+        pings = 0
+        for i, e in enumerate(log):
+            q = e[1]
+            if dsc(e):
+                if t_default is not None and pings:
+                    seen.add("s3.tester-present-on.ping-received-during-pause")
+                    if pings * s3["tp_interval"] > s3["s3"]:
+                        seen.add("s3.tester-present-on.pause-longer-than-s3-bridged")
+                t_default = i if q[1] & 0x7F == 1 and e[2] is not None and e[2][0] == 0x50 and case["sleep"] else None
+                pings = 0
+            elif q[:1] == b"\x3e":
+                pings += 1
+                if e[0] != 1:
+                    seen.add("s3.tester-present-on.ping-received-in-non-default-session")
+            elif q != b"":
+                t_default = None
+    if any(e[1] == b"" and e[0] != 1 for e in log):
+        seen.add("s3.fallback-out-of-non-default-session")  # never required; on the unchanged scanner this does not happen
+    for name in sorted(seen):  # once per scan
+        ctx.reach(name)
+
+
 def mechanism(case: dict[str, Any], o: dict[str, Any], log: list[Any]) -> str:
     """ECU-side trace of the two places where the scanner has to re-enter its stack although no probe 'succeeded' in its own
     books; used only to NAME the mechanism in the key of a verdict reached otherwise (wrong set / stack / abort).
@@ -727,6 +912,12 @@ def mechanism(case: dict[str, Any], o: dict[str, Any], log: list[Any]) -> str:
         spans = delayed_reset_spans(log)
         if any(len(e[1]) == 2 and e[1][0] == 0x10 for i, j in spans for e in log[i + 1 : j]):
             out += "/session-change-requested-before-delayed-reset-carried-out"
+    if o.get("s3"):
+        # the ECU was left without any request for longer than S3 while it was in a non-default session (and fell back to the
+        # default session behind the scanner's back); how that relates to the options is part of the name
+        if any(e[1] == b"" and e[0] != 1 for e in log):
+            out += "/ecu-idle-beyond-s3-in-non-default-session/" + ("tester-present-on" if o["s3"]["tp"] else
+                                                                     "tester-present-off-sleep-longer-than-s3" if case["sleep"] > o["s3"]["s3"] else "tester-present-off")
     if hooked and case["with_hooks"]:
         for i in dsc:
             before, q, r, after = log[i]
@@ -766,6 +957,8 @@ def judge(ctx: Any, case: dict[str, Any], o: dict[str, Any], out: dict[str, Any]
         reach_silent_resets(ctx, log, out.get("reconnects", 0))
     if o.get("delayed"):
         reach_delayed_resets(ctx, log)
+    if o.get("s3"):
+        reach_s3(ctx, case, o, log)
 
     mx = mechanism(case, o, log)
 
@@ -809,6 +1002,8 @@ def judge(ctx: Any, case: dict[str, Any], o: dict[str, Any], out: dict[str, Any]
         ctx.violation(key, "a session that cannot be entered within the depth limit is reported", {**w, "session": s, "distance": unbounded.get(s)})
     if got == set(want):
         ctx.reach("outcome.exact")
+        if o.get("s3"):
+            ctx.reach("s3.outcome.exact")
         if not conformant:
             ctx.reach("outcome.exact.nonconformant")
         # (a scan that does not abort has re-entered the default session from itself, so session 1 is always part of an exact result)
@@ -968,6 +1163,7 @@ def fit_db(case: dict[str, Any], tier: str) -> dict[str, Any]:
     case["reset"] = None
     case["silent_reset"] = None
     case["delayed_reset"] = None
+    case["s3"] = None
     case["sleep"] = 0
     while db_cost(case) > DB_MAX_REQ[tier]:
         if case["thorough"]:
@@ -1183,8 +1379,16 @@ def pinned_case(depth: int, part: int) -> dict[str, Any]:
         edges[s].add(1)
     case = {"edges": {str(k): sorted(v) for k, v in sorted(edges.items())}, "guarded": [], "depth": depth, "skip": [], "skip_expr": [],
             "thorough": part % 4 == 1 and depth <= 4, "reset": 1 if part % 4 == 2 else None, "ecu_reset": True, "with_hooks": False, "sleep": 0,
-            "full": part % 4 == 3, "feats": ["pinned"], "hooked": [], "silent_reset": None, "max_retries": 3, "delayed_reset": None}
+            "full": part % 4 == 3, "feats": ["pinned"], "hooked": [], "silent_reset": None, "max_retries": 3, "delayed_reset": None, "s3": None}
     v = part % 16
+    if v in (5, 13):  # ECU with a session timeout of 0.4 s / 1.5 s, --sleep 1 / 2 (longer than S3), no tester present
+        case["s3"] = {"s3": 0.4 if v == 5 else 1.5, "tp": False, "tp_interval": 0.5, "latency": 0.0 if v == 5 else 0.01}
+        case["sleep"] = 1 if v == 5 else 2
+        if v == 13:  # ... and with --reset (instead of thorough): reset, wait for the ECU, '10 01', pause, rest of the stack, probe
+            case["reset"], case["thorough"] = 1, False
+    elif v == 7:  # the same ECU scanned by the full run() with its cyclic tester present (interval 0.2 s) and --sleep 1
+        case["s3"] = {"s3": 0.6, "tp": True, "tp_interval": 0.2, "latency": 0.01}
+        case["sleep"] = 1
     if v == 2:  # the ECU answers the reset at once and carries it out later (depth-dependent delay; replies take 20 ms)
         case["delayed_reset"] = {"delay": round(0.09 * depth, 3), "latency": 0.02, "boot": 0.3 if depth == 4 else 0.0}
     elif v in (6, 10, 14):  # the ECU carries out every reset (6, 10) / every reset outside the default session (14) without answering
